@@ -23,6 +23,26 @@
      RoUnmodified            unchanged: class = "ro" => device = dev0 /\ ~modified  -- also when auxmod is TRUE      *)
 EXTENDS ToolRun
 
+(* Round 3 -- the TARGET is a SET of devices.  "The target" of a read-only invocation is every device the invocation
+   names or reaches, not only the first path of the command line.  A filesystem with an EXTERNAL journal consists of two
+   devices: the filesystem device and the journal device (mke2fs -O journal_dev) which the tools reach through
+   `e2fsck -j <dev>`, `debugfs logdump -f <dev>`, or the lookup of the superblock's s_journal_uuid / s_journal_dev
+   (libblkid); tune2fs -l / dumpe2fs / e2image / debugfs can also be given the journal device itself.  e2fsck_get_journal
+   opens an external journal device with IO_FLAG_RW even under -n (the open mode is recorded, it is not the oracle):
+   nothing but the protocol below keeps a read-only run from writing it.
+   Objects of a run (numbers reported by the recorder, harness/iotrace.c field `tgt`):
+        0  the device named on the command line           class "target"
+        1  the file named by -z                           class "aux"
+        2  the undo log given to e2undo                   class "aux"
+        3  the external journal device                    class "target"
+   ToolRun's `device` is the content version of the whole target set (the harness compares the sha256 of EVERY target
+   object), `open` holds the descriptors of every target object.  All rules about the target therefore hold for the
+   journal device as they do for the filesystem device: in class "ro" no effective write-class step on it is enabled. *)
+TargetObjs == {0, 3}
+AuxObjs    == {1, 2}
+ObjClass(o) == IF o \in TargetObjs THEN "target" ELSE IF o \in AuxObjs THEN "aux" ELSE "unknown"
+ASSUME TargetObjs \cap AuxObjs = {}
+
 VARIABLES auxopen,      \* set of <<fd, mode>>: open descriptors of auxiliary files (-z undo file, undo log)
           auxmod        \* an effective write-class call on an auxiliary file happened
 
